@@ -11,7 +11,7 @@ LEVEL_TEXT = (
     "For the 6 read methods on each of Client, PooledClient and HashClient: the value returned on the failure path is "
     "compared, as a term over the method's parameters, with the value the same method returns on a miss (R1/R2); and a "
     "path analysis shows that with ignore_exc no ordinary exception raised by a network/parse/deserialise call can "
-    "escape (R3). Bookkeeping exceptions raised inside HashClient's failover handlers are not decided (C13)."
+    "escape (R3); Client's read methods are interpreted end to end with ignore_exc set against 17 fault plans each and must return the miss value (R5). Bookkeeping exceptions raised inside HashClient's failover handlers are not decided (C13)."
 )
 TRUSTED = ["CPython ast", "pmcsa/paths.py", "term comparison in pmcsa/rules_C07.py"]
 
@@ -313,12 +313,73 @@ def run(chk):
         direct = [c for c in walk_no_nested(hf.node) if isinstance(c, ast.Call) and isinstance(c.func, ast.Attribute) and isinstance(c.func.value, ast.Name) and c.func.value.id in cvars]
         r3.expect(not direct, "HashClient.%s reaches clients only through the safe runner" % m, "HashClient.%s:direct-client-call" % m, "HashClient.%s calls `%s` outside _safely_run_func" % (m, node_src(direct[0]) if direct else ""), fn=hf)
     r3.floor("PooledClient read methods analysed", n_cov, 6)
+    r5 = chk.rule("C07.R5", "Client's read methods, evaluated end to end with ignore_exc set against 17 fault plans each (refused connection, failed send, time-out, close, error / garbage / malformed lines at every reply position, undeserialisable item): never raise, return the miss value")
+    n5 = client_fault_rows(prog, r5)
+    r5.floor("method x fault plan rows", n5, 90)
     r4 = chk.rule("C07.R4", "still usable: reads are routed through the current rotation, so an evicted server is not contacted again (its repeated failure would raise from the failover bookkeeping even with ignore_exc)")
     from . import rules_C12, report
 
     report.include_rules(chk, r4, rules_C12, ("C12.R2",), "HashClient reads reach only servers the hasher currently has in rotation")
     chk.assume("exceptions raised by HashClient's own bookkeeping inside the failover handlers are otherwise not decided here (C13)")
     chk.assume("input validation errors (MemcacheIllegalInputError) are not server/network failures and may be raised")
+
+
+FAULT_PLANS = None
+
+
+def fault_plans():
+    """(description, reply script, fault) - what the connection does to one read call."""
+    from . import spec
+
+    V1, V1C, D = b"VALUE k1 0 3", b"VALUE k1 0 3 7", b"abc"
+    plans = []
+    for cas in (False, True):
+        v = V1C if cas else V1
+        plans.append((cas, [
+            ("connection refused", (), "connect"),
+            ("send fails", (), "send"),
+            ("time-out before any reply", (), None),
+            ("connection closed before any reply", (spec.CLOSE,), None),
+            ("ERROR reply", (b"ERROR",), None),
+            ("SERVER_ERROR reply", (b"SERVER_ERROR out of memory",), None),
+            ("CLIENT_ERROR reply", (b"CLIENT_ERROR bad command line format",), None),
+            ("unparseable reply line", (b"BOGUS",), None),
+            ("VALUE line with a missing field", (b"VALUE k1 0", D, b"END"), None),
+            ("VALUE line with a non-numeric size", (b"VALUE k1 0 x" + (b" 7" if cas else b""), D, b"END"), None),
+            ("connection closed inside the data block", (v, spec.CLOSE), None),
+            ("time-out after the data block", (v, D), None),
+            ("connection closed before END", (v, D, spec.CLOSE), None),
+            ("garbage instead of END", (v, D, b"BOGUS"), None),
+            ("error reply after a value", (v, D, b"SERVER_ERROR out of memory"), None),
+            ("value for a key that was not asked for", (v.replace(b"k1", b"k9"), D, b"END"), None),
+            ("undeserialisable item", (v, D, b"END"), "deserialize"),
+        ]))
+    return dict(plans)
+
+
+def client_fault_rows(prog, r5):
+    """Client's read methods evaluated end to end (pmcsa/rules_C05.script_eval) with ignore_exc set, against every
+    fault plan: the call never raises and returns exactly what the same call returns for a miss."""
+    from .rules_C05 import script_eval, judge, settle, _show
+
+    n = 0
+    plans = fault_plans()
+    for mname in READS:
+        f = prog.method("Client", mname, required=False)
+        if f is None:
+            continue
+        miss = script_eval(prog, mname, (b"END",), ignore_exc=True, full=True)
+        mv = {v for s, v, t in miss.of("ret")}
+        if len(mv) != 1 or miss.of("exc"):
+            r5.undecided("Client.%s:miss-value" % mname, "the miss value of Client.%s could not be evaluated (%s)" % (mname, sorted(map(_show, mv))))
+            continue
+        mval = next(iter(mv))
+        for desc, script, fault in plans["gets" in mname or "gats" in mname]:
+            n += 1
+            outs = script_eval(prog, mname, script, ignore_exc=True, fault=fault, full=True)
+            st, got, w = judge(outs, "ret", lambda v: v == mval)
+            settle(r5, st, "Client.%s, %s -> %s" % (mname, desc, _show(mval)), "Client.%s:fault:%s" % (mname, desc.replace(" ", "-")), "with ignore_exc set, Client.%s %s when the fault is `%s`; a miss returns %s" % (mname, got, desc, _show(mval)), f, w)
+    return n
 
 
 def _stmt(fn, line):
